@@ -1598,62 +1598,90 @@ fn main() {
     ctx.require_min_count("regression-vectors", "zip143-vector", 5);
     ctx.require_min_count("regression-vectors", "zip243-vector", 5);
 
+    // The repository's Orchard generators draw signing keys / ephemeral keys by rejection (about 10
+    // local rejects per generated case here, about 100 per arb_tx case) and proptest's reject budget
+    // (65 536 per worker) is cumulative over a run: the quota is therefore split into batches
+    // (`name`, `name-b2`, ...) that each stay far below the budget whatever the worker count.
+    let workers = ctx.workers;
+    let batches = |base: &str, total: u64, per_worker: u64| -> Vec<(String, u64)> {
+        let cap = per_worker * workers as u64;
+        let n = total.div_ceil(cap).max(1);
+        (0..n).map(|i| (if i == 0 { base.to_string() } else { format!("{base}-b{}", i + 1) }, total / n + u64::from(i < total % n))).collect()
+    };
+
     // 2. reference differential
     if on("reference") {
-        ctx.run_prop_with("reference", arb_case, tier.pick(10_000, 400_000), 300, check_reference);
-    }
-    for (l, f) in [
-        ("v5", 0.25),
-        ("v6", 0.20),
-        ("v4", 0.12),
-        ("v3", 0.03),
-        ("v1", 0.015),
-        ("v2", 0.015),
-        ("coinbase", 0.03),
-        ("transparent-inputs", 0.40),
-        ("single-index-beyond-outputs", 0.10),
-        ("orchard", 0.25),
-        ("ironwood", 0.12),
-        ("sapling-spends", 0.15),
-        ("sapling-outputs-only", 0.02),
-        ("v6-no-orchard-no-ironwood", 0.01),
-        ("v6-orchard-only", 0.02),
-        ("v6-ironwood-only", 0.02),
-        ("v5-nu5", 0.03),
-        ("v5-nu6", 0.03),
-        ("v5-nu6.1", 0.03),
-        ("v5-nu6.2", 0.03),
-        ("v5-nu6.3", 0.03),
-    ] {
-        ctx.require_label_fraction("reference", l, f);
+        for (name, cases) in batches("reference", tier.pick(10_000, 400_000), 2_000) {
+            ctx.run_prop_with(&name, arb_case, cases, 300, check_reference);
+            for (l, f) in [
+                ("v5", 0.25),
+                ("v6", 0.20),
+                ("v4", 0.12),
+                ("v3", 0.03),
+                ("v1", 0.015),
+                ("v2", 0.015),
+                ("coinbase", 0.03),
+                ("transparent-inputs", 0.40),
+                ("single-index-beyond-outputs", 0.10),
+                ("orchard", 0.25),
+                ("ironwood", 0.12),
+                ("sapling-spends", 0.15),
+                ("sapling-outputs-only", 0.02),
+                ("v6-no-orchard-no-ironwood", 0.01),
+                ("v6-orchard-only", 0.02),
+                ("v6-ironwood-only", 0.02),
+                ("v5-nu5", 0.03),
+                ("v5-nu6", 0.03),
+                ("v5-nu6.1", 0.03),
+                ("v5-nu6.2", 0.03),
+                ("v5-nu6.3", 0.03),
+            ] {
+                ctx.require_label_fraction(&name, l, f);
+            }
+        }
     }
     if on("reference-repo-arb-tx") {
-        ctx.run_prop_with("reference-repo-arb-tx", arb_repo_case, tier.pick(400, 12_000), 40, check_reference);
+        for (name, cases) in batches("reference-repo-arb-tx", tier.pick(400, 12_000), 150) {
+            ctx.run_prop_with(&name, arb_repo_case, cases, 40, check_reference);
+            ctx.require_label_fraction(&name, "v5", 0.15);
+            ctx.require_label_fraction(&name, "v6", 0.035);
+            ctx.require_label_fraction(&name, "v4", 0.08);
+        }
     }
-    ctx.require_min_count("reference-repo-arb-tx", "v5", tier.pick(60, 1_500));
-    ctx.require_min_count("reference-repo-arb-tx", "v6", tier.pick(15, 500));
 
     // 3. metamorphic
     if on("metamorphic") {
-        ctx.run_prop_with("metamorphic", arb_case, tier.pick(3_500, 105_000), 200, check_metamorphic);
-    }
-    for (l, f) in [("v5", 0.25), ("v6", 0.20), ("v4", 0.12), ("v3", 0.03), ("transparent-inputs", 0.35), ("two-or-more-inputs", 0.20), ("single-index-beyond-outputs", 0.10)] {
-        ctx.require_label_fraction("metamorphic", l, f);
-    }
-    // every (version, bundle, tag) row and every catalogue field must have been exercised
-    let scale = tier.pick(1u64, 30);
-    for v in [Ver::Sprout(1), Ver::Sprout(2), Ver::V3, Ver::V4, Ver::V5, Ver::V6] {
-        let small = matches!(v, Ver::Sprout(_) | Ver::V3);
-        let mut rows: BTreeMap<&'static str, ()> = BTreeMap::new();
-        for (id, d) in FIELD_DEFS {
-            if (d.applies)(v) {
-                let t = tag(*id, v);
-                rows.insert(row_name(v, d.bundle, t), ());
-                ctx.require_min_count("metamorphic", field_name(v, d, t), scale * if small { 15 } else { 100 });
+        for (name, cases) in batches("metamorphic", tier.pick(3_500, 105_000), 2_000) {
+            ctx.run_prop_with(&name, arb_case, cases, 200, check_metamorphic);
+            for (l, f) in [("v5", 0.25), ("v6", 0.20), ("v4", 0.12), ("v3", 0.03), ("transparent-inputs", 0.35), ("two-or-more-inputs", 0.20), ("single-index-beyond-outputs", 0.10)] {
+                ctx.require_label_fraction(&name, l, f);
             }
-        }
-        for r in rows.keys() {
-            ctx.require_min_count("metamorphic", r, scale * if small { 60 } else { 500 });
+            // every (version, bundle, tag) row and every catalogue field must have been exercised
+            // (minimums calibrated at 3 500 cases, scaled to the batch)
+            let scaled = |per_3500: u64| (per_3500 * cases / 3_500).max(1);
+            for v in [Ver::Sprout(1), Ver::Sprout(2), Ver::V3, Ver::V4, Ver::V5, Ver::V6] {
+                let small = matches!(v, Ver::Sprout(_) | Ver::V3);
+                let mut rows: BTreeMap<&'static str, ()> = BTreeMap::new();
+                for (id, d) in FIELD_DEFS {
+                    if (d.applies)(v) {
+                        let t = tag(*id, v);
+                        rows.insert(row_name(v, d.bundle, t), ());
+                        // v6 is valid under NU6.3 only: another branch id parses only without Orchard-format
+                        // bundles (about 9% of the v6 cases)
+                        let min = if *id == FId::HdrBranch && v == Ver::V6 {
+                            25
+                        } else if small {
+                            15
+                        } else {
+                            100
+                        };
+                        ctx.require_min_count(&name, field_name(v, d, t), scaled(min));
+                    }
+                }
+                for r in rows.keys() {
+                    ctx.require_min_count(&name, r, scaled(if small { 60 } else { 500 }));
+                }
+            }
         }
     }
     ctx.finish();
